@@ -106,8 +106,8 @@ def werner(dim: int, alpha: float | list[float]) -> np.ndarray:
 
         # Done error checking and computing the number of parties
         # -- now compute the Werner state.
-        perms = list(itertools.permutations(range(n_var)))
-        sorted_perms = np.argsort(perms, axis=1)
+        # `itertools.permutations` already yields the permutations in lexicographical order.
+        sorted_perms = np.array(list(itertools.permutations(range(n_var))))
 
         rho = np.identity(dim**n_var)
         for i in range(1, n_fac):
